@@ -358,6 +358,11 @@ func VerifWrReset() {
 	K2 := verifrt.Param("K2")
 	big := vwBig(setting, tinyW)
 	data := vwData((K1+K2)*big + 64)
+	if verifrt.Param("REPLAY") == 1 {
+		// period 10: the bytes of a short first stream come back at the same and at later
+		// positions of the second one
+		data = vwDataP((K1+K2)*big+64, 10)
+	}
 	old := &vwSink{}
 	if verifrt.Pick("oldfails", 2) == 1 {
 		old.failAt = 1
@@ -385,6 +390,11 @@ func VerifWrReset() {
 	a, b := &vwSink{}, &vwSink{}
 	used.Reset(a)
 	fresh := vwNew(setting, b, tinyW)
+	if verifrt.Param("REPLAY") == 1 {
+		// the second stream starts with the same bytes as the first one: whatever the
+		// match finder still remembers from before Reset now points at equal data
+		pos = 0
+	}
 	for i := 0; i < K2; i++ {
 		op := int(verifrt.U8())
 		verifrt.Assume(op < opReset && op != opWrite0)
